@@ -105,6 +105,17 @@ impl Prop for C15 {
         let p_obs = *r.pick(&[0.0, 0.1, 0.5]);
         let early = r.chance(0.5);
         let mut ev = single_schedule(r, &vals, p_obs, early);
+        // "all interleavings of update and last": some deliveries are not followed by a last() at all
+        let p_silent = *r.pick(&[0.0, 0.0, 0.5, 0.95]);
+        if p_silent > 0.0 {
+            for e in ev.iter_mut() {
+                if let Ev::D { tag, .. } = e {
+                    if r.chance(p_silent) {
+                        *tag = crate::scenario::SILENT;
+                    }
+                }
+            }
+        }
         // clone / drop at random points (only if the tree is Clone)
         if tree.cloneable() && r.chance(0.4) {
             let n_forks = 1 + r.below(3);
@@ -179,7 +190,7 @@ impl Prop for C15 {
                 continue;
             }
             match *e {
-                Ev::D { v, .. } => {
+                Ev::D { v, tag, .. } => {
                     let view = reps[r].as_mut().unwrap();
                     if let Err(p) = try_update(view, v) {
                         out.violation = Some(panic_at(p, step, "update"));
@@ -187,6 +198,10 @@ impl Prop for C15 {
                     }
                     delivered[r] += 1;
                     st.hit("ev.deliver");
+                    if tag == crate::scenario::SILENT {
+                        st.hit("ev.deliver_silent");
+                        continue;
+                    }
                     match try_last(view) {
                         Ok(o) => h.opt(o),
                         Err(p) => {
